@@ -142,6 +142,7 @@ class Gen:
         self.model = Model(BOOT_CONFIGS[self.boot_id] or BOOT_CONFIGS["shipped"])
         self.steps = []
         self.dropped = set()
+        self.consumed = {}     # handle of a live-nested circuit -> handle of the circuit it sits in
         self.force = {}
         self.sess_handles = {s: [] for s in range(self.n_sessions)}
         self.decl = set()
@@ -166,6 +167,27 @@ class Gen:
 
     def all_handles(self):
         return [h for s in self.sess_handles.values() for h in s]
+
+    def free(self, hs):
+        """handles of circuits that are not live-nested in another circuit"""
+        return [h for h in hs if h not in self.consumed]
+
+    def live_add_ok(self, name, block, st):
+        """An operation added later to a block that already sits in a circuit (through the handle add() returned, or
+        through the handle of a live-nested circuit): the block was placed according to the channels it had then, so
+        only channels the block already occupies keep that placement meaningful - or a qubit nothing in the whole
+        circuit uses yet (such an operation starts with its block; before the repair D18 it reported block-relative
+        times until the next listing when the block was related to something)."""
+        from sim.model import kind_channels
+        m = self.model
+        kind = st["kind"]
+        chain = m.chain_of(m.roots[name])
+        have = m.channels_of(block)
+        used_qubits = {c[0] for c in m.channels_of(chain[-1])}
+        new_ch = kind_channels(kind, st["q"], st.get("chan") if kind in TAKES_CHAN else None)
+        if not all(c[0] not in used_qubits or any(e == c or (e[0] == c[0] and e[1] == "ALL") for e in have) for c in new_ch):
+            return False
+        return True
 
     def emit(self, st):
         self.steps.append(st)
@@ -278,6 +300,8 @@ class Gen:
                 # bias: shallow explicit relation (an early entry) half of the time
                 k = rng.choice(live[: max(1, len(live) // 2)]) if rng.random() < 0.5 else rng.choice(live)
                 st["rel"] = [rng.choice(REL_TYPES), k]
+        if name in self.consumed and not self.live_add_ok(name, root, st):
+            return False
         self.emit(st)
         self.model.add_op(name, st, {"checked": False, "rt": "FOLLOWED_BY", "ref_key": None})
         return True
@@ -319,20 +343,7 @@ class Gen:
             st["det"] = {"last_acquisition_index": 3, "main_target": rng.randint(0, 3)}
         if kind == "CoordinateShiftOperation":
             st["shift"] = [rng.randint(0, 3), rng.randint(0, 3)]
-        # the nested block was placed according to the channels it had when it was added: only operations on
-        # channels the block already occupies keep that placement meaningful (anything else is outside the workload)
-        from sim.model import kind_channels
-        have = m.channels_of(m.entries[name][k])
-        used_qubits = {c[0] for c in m.channels_of(m.roots[name])}
-        new_ch = kind_channels(kind, st["q"], st.get("chan") if kind in TAKES_CHAN else None)
-        # ... or on a qubit nothing in the whole circuit uses yet (cannot change any earlier placement either) - but
-        # only into a block that itself sits unrelated at the start of a top-level circuit: an unrelated operation
-        # added to a *related* nested block after a listing reports block-relative times until the next listing
-        # (observed, see DESIGN 11 "outside the workload"), which is not what this step is meant to exercise
-        fresh = any(c[0] not in used_qubits for c in new_ch)
-        if fresh and m.entries[name][k].rel is not None:
-            return False
-        if not all(c[0] not in used_qubits or any(e == c or (e[0] == c[0] and e[1] == "ALL") for e in have) for c in new_ch):
+        if not self.live_add_ok(name, m.entries[name][k], st):
             return False
         self.emit(st)
         try:
@@ -344,14 +355,14 @@ class Gen:
 
     def mk_add_sub(self, s):
         rng = self.rng
-        parents = [h for h in self.sess_handles[s] if h in self.decl]
+        parents = self.free([h for h in self.sess_handles[s] if h in self.decl])
         if not parents:
             return False
         parent = self.force.pop("parent", None) or rng.choice(parents)
         if rng.random() < 0.8:
-            cands = [h for h in self.sess_handles[s] if h != parent]
+            cands = self.free([h for h in self.sess_handles[s] if h != parent])
         else:
-            cands = [h for h in self.all_handles() if h != parent]
+            cands = self.free([h for h in self.all_handles() if h != parent])
         cands = [h for h in cands if self.model.roots[h] is not self.model.roots[parent]]
         if "child" in self.force:
             cands = [self.force.pop("child")]
@@ -376,13 +387,13 @@ class Gen:
         """nest the live structure of another circuit through add_operation (no copy): two circuits, one block"""
         rng = self.rng
         m = self.model
-        parents = [h for h in self.sess_handles[s] if h in self.decl and h not in self.lib_handles and h not in self.flat]
+        parents = self.free([h for h in self.sess_handles[s] if h in self.decl and h not in self.lib_handles and h not in self.flat])
         if not parents:
             return False
-        parent = rng.choice(parents)
+        parent = self.force.pop("parent", None) or rng.choice(parents)
         cands = []
         for h in self.all_handles():
-            if h == parent or h not in self.decl or h in self.lib_handles or h in self.flat:
+            if h == parent or h not in self.decl or h in self.lib_handles or h in self.flat or h in self.consumed:
                 continue
             r = m.roots[h]
             if r is m.roots[parent] or not r.rel_known:
@@ -390,6 +401,8 @@ class Gen:
             if sum(1 for x in m.roots.values() if x is r) != 1:
                 continue   # only circuits held through a single handle
             cands.append(h)
+        if "child" in self.force:
+            cands = [h for h in cands if h == self.force.pop("child")]
         if not cands:
             return False
         child = rng.choice(cands)
@@ -405,16 +418,11 @@ class Gen:
         if m.roots[parent].rel_known and v.get("adm"):
             c.rel = ("FOLLOWED_BY", v["adm"][-1])
         m.settle_live(c)
-        del m.roots[child]
-        for lst in self.sess_handles.values():
-            if child in lst:
-                lst.remove(child)
-        self.dropped.add(child)
-        self.decl.discard(child)
+        self.consumed[child] = parent
         return True
 
     def mk_copy(self, s):
-        hs = self.sess_handles[s]
+        hs = self.free(self.sess_handles[s])
         if not hs:
             return False
         name = self.force.pop("handle", None) or self.rng.choice(hs)
@@ -429,7 +437,7 @@ class Gen:
         return True
 
     def mk_apply(self, s):
-        hs = self.sess_handles[s]
+        hs = self.free(self.sess_handles[s])
         if not hs:
             return False
         name = self.force.pop("handle", None) or self.rng.choice(hs)
@@ -452,10 +460,12 @@ class Gen:
         return True
 
     def mk_flatten(self, s):
-        hs = self.sess_handles[s]
+        hs = self.free(self.sess_handles[s])
         if not hs:
             return False
         name = self.force.pop("handle", None) or self.rng.choice(hs)
+        if self.model.holds_live(self.model.roots[name]):
+            return False   # flattening rewrites the relation links of operations another circuit object holds too
         as_name = self.fresh(s)
         st = {"s": s, "op": "FLATTEN", "c": name, "as": as_name}
         if not self.fault_free and self.rng.random() < self.P.get("p_flatten_fail", 0.06) and self.model.leaf_count(name) >= 2:
@@ -562,7 +572,7 @@ class Gen:
             self.emit(st)
             return True
         if what == "DROP":
-            hs = [h for h in self.all_handles() if h not in self.dropped]
+            hs = self.free([h for h in self.all_handles() if h not in self.dropped])
             if len(hs) < 2:
                 return False
             h = rng.choice(hs)
